@@ -5,12 +5,14 @@ HERE = os.path.dirname(os.path.dirname(os.path.abspath(__file__)))
 sys.path.insert(0, HERE)
 props = [json.loads(l) for l in open(os.path.join(HERE, 'properties.jsonl'))]
 NA = json.load(open(os.path.join(HERE, 'tools', 'not_applicable.json')))
+# only checks that the integrator has run, soaked and adjudicated on the current tree are registered
+READY = set(json.load(open(os.path.join(HERE, 'tools', 'ready.json'))))
 checks, na = [], []
 for p in props:
     pid = p['id']
     path = os.path.join(HERE, 'vf', 'props', pid + '.py')
     mod = None
-    if os.path.exists(path):
+    if os.path.exists(path) and pid in READY:
         mod = importlib.import_module('vf.props.' + pid)
     if mod is None or not getattr(mod, 'META', None) or pid in NA:
         na.append({'property_id': pid, 'reason': NA.get(pid, 'check not built yet in this round (specification work in progress); not claimed')})
